@@ -116,7 +116,7 @@ def run_check(chk, repo, tier):
                 if unitary is FALSE:
                     continue
                 chain = flatten_dot(d)
-                ok_c = len(chain) == 3 and chain[1] == S('f')
+                ok_c = len(chain) == 3 and nf.strip_apps(chain[1]) == S('f')
                 chk.ob('C01-c', 'N-structure', 'fourier.dft2', f'triple product [{label}]', ok_c,
                        f'expected E1 . f . E2, got {len(chain)} factors with middle {fmt(chain[1]) if len(chain) > 1 else "-"}',
                        f.loc(p.node))
